@@ -10,7 +10,9 @@ Not one of C01..C20: a pseudo-property that binds the typing judgement of the sp
 3. `vh statics`: what Code::parse says about every rendered program (accepted?, error class, static type);
 4. TLC trace validation (Trace_Static): one step per record; kinds a (both accept, Matches(impl, spec)),
    b (spec only), c (impl only), d (both reject), fold (named difference D4), panic, tool.
-   Kinds a-dev, b, c and panic are violations; tool is a tool error."""
+   Both accept: EQUAL types are demanded unless the program is sensitive to constant folding
+   (Static!FoldSensitive, named differences D1/D2/D5), where Matches(impl, spec) is demanded.
+   Kinds a-dev, a-narrow, b, c and panic are violations; tool is a tool error."""
 import collections
 import json
 import os
@@ -22,7 +24,7 @@ from vlib import common as C
 from vlib import langsuite as L
 
 SUITES = ["c04", "c06", "c07", "c11", "c12", "c12t", "c13"]
-DEV_KINDS = ("a-dev", "b", "c", "panic")
+DEV_KINDS = ("a-dev", "a-narrow", "b", "c", "panic")
 
 
 def _suite(s, tier, out):
@@ -135,8 +137,10 @@ def run(tier):
     if '"RECORDS"' not in tr.out or "Consumed" in tr.out and "violated" in tr.out:
         raise C.ToolError("Trace_Static did not consume every record; see work/tlc_static_trace_%s.log" % tier)
     kinds = collections.Counter()
-    for k, eq in re.findall(r'^<<"K", "([^"]+)", (TRUE|FALSE)>>$', tr.out, re.M):
+    n_sensitive = 0
+    for k, eq, sens in re.findall(r'^<<"K", "([^"]+)", (TRUE|FALSE), (TRUE|FALSE)>>$', tr.out, re.M):
         kinds[k + ("=" if eq == "TRUE" else "")] += 1
+        n_sensitive += sens == "TRUE"
     devs = tr.printed("DEV")
     wider = tr.printed("WIDER")
     if sum(kinds.values()) != n_cases:
@@ -165,12 +169,14 @@ def run(tier):
         sig = {"kind": d["kind"], "spec": spec, "impl": impl, "program": t.get("text", "")}
         replay = {"case": d["id"], "kind": d["kind"],
                   "meaning": {"a-dev": "both accept but Matches(implementation's type, specification's type) fails",
+                              "a-narrow": "both accept, the implementation's type is strictly narrower than the specification's "
+                                          "and the program is not sensitive to constant folding",
                               "b": "the specification accepts, the implementation's checker rejects",
                               "c": "the specification rejects, the implementation's checker accepts",
                               "panic": "the checker panicked"}[d["kind"]],
                   "specification": d["spec"], "implementation": d["impl"], "checker_message": t.get("detail", ""),
                   "program": t.get("text", "")}
-        if d["kind"] in ("c", "a-dev") and len(suites_of) < 40:
+        if d["kind"] in ("c", "a-dev", "a-narrow") and len(suites_of) < 40:
             replay["run"] = _probe(t.get("text", ""), work, d["i"])
             ex_ = replay["run"].get("exec") if isinstance(replay["run"], dict) else None
             replay["goes_wrong_when_run"] = bool(isinstance(ex_, dict) and "panic" in ex_)
@@ -185,9 +191,11 @@ def run(tier):
     cov["rule"] = "distinct rendered program texts checked by Code::parse and judged by Trace_Static"
     cov["by_suite"] = by_suite
     cov["kinds"] = dict(kinds)
-    cov["kinds_legend"] = ("a=: both accept, equal types; a: both accept, implementation strictly more precise; d: both reject; "
+    cov["kinds_legend"] = ("a=: both accept, equal types; a: both accept, fold-sensitive program, implementation strictly more "
+                           "precise (D1/D2); c-fold: fold-sensitive program accepted by the implementation only (D5); d: both reject; "
                            "d-syntax: rejected AST not in the grammar; fold: constant sub-expression failed while folded (D4); "
-                           "a-dev / b / c / panic: deviations")
+                           "a-dev / a-narrow / b / c / panic: deviations")
+    cov["fold_sensitive_programs"] = n_sensitive
     cov["implementation_checker"] = summary
     cov["generated_programs"] = 3 * n_gen
     cov["negatives_accepted_by_the_specification"] = {"count": len(negacc), "ids": [x["id"] for x in negacc[:12]]}
@@ -202,7 +210,8 @@ def run(tier):
     chk.assumptions += [
         "TLC/SANY/CommunityModules are correct",
         "harness/src/render.rs (AST -> source text) is faithful; wire.rs type conversion is faithful",
-        "relation: accepted by both => Matches(implementation's static type, TypeOf); named differences D1..D8 in spec/Static.tla",
+        "relation: accepted by both => equal static types; for fold-sensitive programs Matches(implementation's type, TypeOf); "
+        "named differences D1..D7 in spec/Static.tla",
         "a rejection of the implementation with the class of a run-time error (constant folding, D4) is not compared",
         "Lang.tla's `tick'/`mark' need the log cell: Static.tla rejects a program that shadows `log' and then ticks"]
     return chk.finish()
